@@ -606,6 +606,16 @@ class SolverState(object):
             self.expect(ok, 'C02.reject', lambda: dict(tight=tight, clip=clip, note='documented ValueError not raised'))
             self.ctx.label('rejected-mode')
             return
+        if any((-1e3 if a is None else a) > (1e3 if b is None else b) for a, b in zip(lo, hi)):
+            # an empty box (a side left at its default can make it so): rejected with the documented ValueError
+            try:
+                s.SetStrictRanges(list(lo), list(hi), tight=tight, clip=clip)
+                ok = False
+            except ValueError:
+                ok = True
+            self.expect(ok, 'C02.reject', lambda: dict(lo=lo, hi=hi, note='min > max not rejected'))
+            self.ctx.label('rejected-empty-box')
+            return
         intside = op[5] if len(op) > 5 else None
         asint = lambda seq: [int(v) if (v is not None and math.isfinite(v) and float(v).is_integer() and abs(v) < 2.0 ** 53) else v for v in seq]
         if intside and all(v is not None and math.isfinite(v) and float(v).is_integer() for v in (hi if intside == 'hi' else lo)):
@@ -798,7 +808,7 @@ def c02_machine_factory(tier, Base):
                     best = [float(v) for v in self.state.solver.bestSolution]
                 except Exception:
                     best = []
-                if len(best) == dim and all(math.isfinite(v) for v in best):
+                if len(best) == dim and all(math.isfinite(v) and abs(v) < 100.0 for v in best):
                     for i, x in enumerate(best):
                         d = data.draw(st.sampled_from([0.0, 0.01, 0.03, 0.04, 0.1])); far = data.draw(st.sampled_from(['inf', 'inf', 5.0, 0.5]))
                         eps = abs(x) * d + (1e-4 if d else 0.0)
